@@ -516,6 +516,8 @@ def run(ck: Checker) -> None:
     ck.assumptions += ["_clear_parent/_set_parent/registry pops with default/dict stores do not raise",
                        "a raising helper call leaves its own partial effects to its own analysis (reported at the helper)",
                        "compensation calls inside except handlers do not fail themselves"]
+    from . import state_rules as SPOS
+    ck.guard("R-LEG-ROLLBACK", lambda: SPOS.r_position_presence(ck, "R-LEG-ROLLBACK", "pyoak.legacy.node", "the restored / rewritten position of the first element of a sequence is 0"))
     ck.guard("R-LEG-ROLLBACK", lambda: r_rollback(ck))
     ck.guard("R-LEG-ROLLBACK", lambda: r_blanket_release(ck))
     from .c18 import r_leg_eq_search
